@@ -48,6 +48,77 @@ def isRootAt (p : MPoly) (y : Nat) (a : Asg) (GZ : List Int) (G : QPoly) (cap : 
           else (exactSign p cand).map (· == 0)
     | _, _ => none
 
+/-! ### isolation by interval arithmetic alone (used when the eliminant degenerates to 0) -/
+
+/-- drop the leading coefficients in y that vanish exactly under the assignment -/
+def reduceLeading (p : MPoly) (y : Nat) (a : Asg) : Nat → Option MPoly
+  | 0 => none
+  | fuel+1 =>
+    if p.isEmpty then some p else
+    let d := MPoly.degreeIn y p
+    let lc := MPoly.coeffIn none y d p
+    match exactSign lc a with
+    | none => none
+    | some s =>
+      if s ≠ 0 ∨ d = 0 then some p
+      else reduceLeading (MPoly.sub none p (MPoly.shl none lc y d)) y a fuel
+
+def boxY (a : Asg) (y : Nat) (lo hi : Rat) (x : Nat) : CI := if x = y then ⟨lo, hi⟩ else box a x
+
+def absHi (J : CI) : Rat := max (QPoly.absQ J.lo) (QPoly.absQ J.hi)
+def absLo (J : CI) : Rat := if 0 < J.lo then J.lo else if J.hi < 0 then -J.hi else 0
+
+/-- Cauchy bound for the real roots of p(ν, ·) from enclosures of its coefficients; refines until the leading one is away from 0 -/
+def rootBoundM (p : MPoly) (y : Nat) : Nat → Asg → Option (Rat × Asg)
+  | 0, _ => none
+  | fuel+1, a =>
+    let d := MPoly.degreeIn y p
+    let cs := coeffsIn y p
+    let Js := cs.map (fun c => ievalM c (box a))
+    let lcLo := absLo ((Js.getLast?).getD (CI.pt 0))
+    if lcLo > 0 ∧ d > 0 then
+      some (1 + (Js.dropLast.foldl (fun m J => max m (absHi J / lcLo)) 0), a)
+    else (refineAll a).bind (rootBoundM p y fuel)
+
+/-- roots of p(ν, ·) in the open interval (lo, hi): cells with exactly one (simple) root each.
+    `budget` bounds the total number of boxes visited (multiple roots would otherwise split forever);
+    returns the cells and the remaining budget -/
+def isoLoopM (p dp : MPoly) (y : Nat) : Nat → Nat → Asg → Rat → Rat → Option (List Cell × Nat)
+  | 0, _, _, _, _ => none
+  | _, 0, _, _, _ => none
+  | fuel+1, budget+1, a, lo, hi =>
+    let J := ievalM p (boxY a y lo hi)
+    if 0 < J.lo ∨ J.hi < 0 then some ([], budget)
+    else
+      let J' := ievalM dp (boxY a y lo hi)
+      if 0 < J'.lo ∨ J'.hi < 0 then
+        -- strictly monotone on [lo, hi]
+        match exactSign p ((y, ZAlg.ofRat lo) :: a), exactSign p ((y, ZAlg.ofRat hi) :: a) with
+        | some sl, some su => if sl * su < 0 then some ([Cell.iv lo hi], budget) else some ([], budget)
+        | _, _ => none
+      else
+        let m := (lo + hi) / 2
+        let a' := if fuel % 2 = 0 then (refineAll a).getD a else a
+        match exactSign p ((y, ZAlg.ofRat m) :: a) with
+        | none => none
+        | some sm =>
+          match isoLoopM p dp y fuel budget a' lo m with
+          | none => none
+          | some (L, b1) =>
+            match isoLoopM p dp y fuel b1 a' m hi with
+            | none => none
+            | some (R, b2) => some (L ++ (if sm = 0 then [Cell.pt m] else []) ++ R, b2)
+
+/-- the distinct real roots of p(ν, ·) when all of them are simple; independent of any eliminant -/
+def rootsByIntervals (p : MPoly) (y : Nat) (a : Asg) : Option (List Cell) :=
+  match reduceLeading p y a 12 with
+  | none => none
+  | some q =>
+    if MPoly.degreeIn y q = 0 then some [] else
+    match rootBoundM q y 60 a with
+    | none => none
+    | some (B, a') => (isoLoopM q (MPoly.derivative none q y) y 60 400 a' (-B) B).map (·.1)
+
 /-- the distinct real roots of p(ν, ·) in increasing order (none if it vanishes identically or is constant) -/
 def rootsUnder (p : MPoly) (y : Nat) (a : Asg) (cap : Nat) : Option (List Alg) :=
   match identicallyZero p y a with
